@@ -110,10 +110,14 @@ impl Distribution<u64> for Geometric {
                 }
                 failures += 1;
             }
+            #[cfg(rand_distr_verif)]
+            crate::verif_hooks::probe(59);
             return failures;
         }
 
         if self.pi == 1.0 {
+            #[cfg(rand_distr_verif)]
+            crate::verif_hooks::probe(60);
             return u64::MAX;
         }
 
@@ -130,6 +134,8 @@ impl Distribution<u64> for Geometric {
         let d = {
             let mut failures = 0;
             while rng.random::<f64>() < pi {
+                #[cfg(rand_distr_verif)]
+                crate::verif_hooks::probe(61);
                 failures += 1;
             }
             failures
@@ -145,11 +151,15 @@ impl Distribution<u64> for Geometric {
             let p_reject = if m <= i32::MAX as u64 {
                 (1.0 - p).powi(m as i32)
             } else {
+                #[cfg(rand_distr_verif)]
+                crate::verif_hooks::probe(63);
                 (1.0 - p).powf(m as f64)
             };
 
             let u = rng.random::<f64>();
             if u < p_reject {
+                #[cfg(rand_distr_verif)]
+                crate::verif_hooks::probe(62);
                 break m;
             }
         };
